@@ -4,7 +4,7 @@ From Coq Require Import List Arith Bool.
 From M Require Import Base Flat FlatSpec.
 From P Require Import FlatP FlatOrder FlatMay.
 From M Require Hsm.
-From P Require HsmMay HsmIff MayGen FlatMayExn HsmMayExn.
+From P Require HsmMay HsmIff MayGen FlatMayExn HsmMayExn HsmReach HsmTotal.
 Import ListNotations.
 
 (* Purity: for every machine whose transitions all have registered destinations, every
@@ -112,6 +112,39 @@ Example C12_hsm_nonvacuous :
   snd (Hsm.can_trigger hm ev (mkCtx 0 0 false) 0 0 f) = inr true /\
   snd (Hsm.trigger_event hm ev (mkCtx 0 0 false) 0 0 f) = inr true /\
   snd (fst (Hsm.trigger_event hm ev (mkCtx 0 0 false) 0 0 f)) = [Hsm.Node 1 [Hsm.Node 2 [Hsm.Node 6 []]; Hsm.Node 3 [Hsm.Node 5 []]]].
+Proof. vm_compute. repeat split; reflexivity. Qed.
+
+(* The prediction on hierarchical machines WITHOUT the proviso "whenever the trigger returns normally": with
+   deterministic, non-raising callbacks, duplicate-free initial lists (wf_defs), destinations registered in their
+   declaring scope (dst_ok, decidable) and a good configuration (unique sibling names, registered states only -
+   the configuration add_model creates is good, C03_initial_good, and goodness is kept), may_<event> returns some
+   b0 and leaves the configuration alone; if b0 is True the trigger returns True; if b0 is False the trigger
+   returns False or raises the invalid-trigger error - nothing else can happen, the engine has no internal
+   failure mode (HsmTotal). *)
+Theorem C12_hsm_iff_total :
+  forall (hm : Hsm.hmachine) (ev : env) (c : ctx) (e : event) (p p' : nat) (f : Hsm.forest) tr1 f1 r1 tr2 f2 r2,
+    (forall cb q, r_raise (ev cb q) = None) -> (forall cb p q, ev cb p = ev cb q) ->
+    HsmReach.wf_defs hm = true -> HsmTotal.dst_ok hm = true -> HsmTotal.good hm f ->
+    Hsm.can_trigger hm ev c e p f = (tr1, f1, r1) ->
+    Hsm.trigger_event hm ev c e p' f = (tr2, f2, r2) ->
+    exists b0, r1 = inr b0 /\ f1 = f /\ HsmTotal.good hm f2 /\
+      (b0 = true -> r2 = inr true) /\
+      (b0 = false -> r2 = inr false \/ r2 = inl MachineError \/ r2 = inl AttributeError).
+Proof. exact HsmTotal.hsm_may_total_b. Qed.
+Print Assumptions C12_hsm_iff_total.
+
+(* non-vacuity: the machine of C12_hsm_nonvacuous meets the decidable hypotheses, its configuration is the one
+   add_model creates for initial state 1 *)
+Example C12_hsm_iff_total_nonvacuous :
+  let hm := Hsm.mkHM
+      [Hsm.SDef 1 [] [] [] false None [2; 3] []
+         [Hsm.SDef 2 [] [] [] false None [4] [] [Hsm.SDef 4 [] [] [] false None [] [] []; Hsm.SDef 6 [] [] [] false None [] [] []];
+          Hsm.SDef 3 [] [] [] false None [5] [(0, [Hsm.mkHT [5] (Some [5]) [] [(9, true)] [] []])]
+            [Hsm.SDef 5 [] [] [] false None [] [] []]]]
+      [(0, [Hsm.mkHT [1; 2; 4] (Some [1; 2; 6]) [] [(8, true)] [] []])] [] [] [] [] [] [] false false in
+  HsmReach.wf_defs hm = true /\ HsmTotal.dst_ok hm = true /\
+  Hsm.chain_tree [1] (Hsm.initial_tree Hsm.def_depth_bound (Hsm.SDef 1 [] [] [] false None [2; 3] [] (Hsm.sd_children (hd (Hsm.SDef 0 [] [] [] false None [] [] []) (Hsm.hm_states hm)))))
+    = [Hsm.Node 1 [Hsm.Node 2 [Hsm.Node 4 []]; Hsm.Node 3 [Hsm.Node 5 []]]].
 Proof. vm_compute. repeat split; reflexivity. Qed.
 
 (* ---------- every environment: callbacks may raise anything (last clause of the property) ---------- *)
